@@ -54,6 +54,9 @@ namespace
         if (kind == "rterr") return "1 + \"a\"; gX = 5;";
         if (kind == "rterr_spawned") return "[] spawn {sleep 0.02; gX = 9;}; 1 + \"a\"; gX = 5;";
         if (kind == "endless") return "for \"_i\" from 0 to 1 step 0 do {gY = 1}; gX = 5;";
+        if (kind == "asmok") return "push 1 assignTo \"gX\" endStatement";
+        if (kind == "asmbad") return "garbage here";
+        if (kind == "asmrecover") return "push SCALAR 1; endStatement;";
         if (kind == "napper") return "[] spawn {sleep 0.05; gX = 3;}; 7";
         if (kind == "sleeper") return "[] spawn {sleep 10; gX = 6;}; 7";
         if (kind == "empty") return "";
